@@ -63,7 +63,8 @@ N_E0 = rs("t/holdsempty", [["record", "sub"]], [E0])
 G_E0 = {"group": "g/e0", "members": [E0, C]}
 G_GEN = {"group": "g/gen", "members": [Y, C], "members_as": "generator"}  # members handed over as a one-shot iterable
 G_MAP = {"group": "g/map", "members": [X, A2], "members_as": "map"}
-KINDS = {"E0": E0, "N_E0": N_E0, "G_E0": G_E0, "G_GEN": G_GEN, "G_MAP": G_MAP, "D_BASE": D_BASE, "D_EXT": D_EXT, "D_CLONE": D_CLONE, "D_STR": D_STR, "D_UNP": D_UNP, "D_MERGE": D_MERGE, "AL1": AL1, "AL2": AL2, "J_BAD": J_BAD, "J_OK": J_OK, "NJ_BAD": NJ_BAD, "NJ_OK": NJ_OK, "F2_BAD": F2_BAD, "F2_OK": F2_OK, "U1": U1, "U2": U2, "G_AB": G_AB, "G_ALT": G_ALT, "G_AA2": G_AA2, "F_BAD": F_BAD, "F_OK": F_OK, "NF_BAD": NF_BAD, "NF_OK": NF_OK, "A": A, "B": B, "A2": A2, "C": C, "N_A": N_A, "N_X": N_X, "G": G, "G_Y": G_Y, "G_B": G_B, "N_B": N_B}
+G_NEST = {"group": "g/outer", "members": [{"group": "g/inner", "members": [A2, C, Y]}, X]}  # a grouped record built from a grouped record
+KINDS = {"G_NEST": G_NEST, "E0": E0, "N_E0": N_E0, "G_E0": G_E0, "G_GEN": G_GEN, "G_MAP": G_MAP, "D_BASE": D_BASE, "D_EXT": D_EXT, "D_CLONE": D_CLONE, "D_STR": D_STR, "D_UNP": D_UNP, "D_MERGE": D_MERGE, "AL1": AL1, "AL2": AL2, "J_BAD": J_BAD, "J_OK": J_OK, "NJ_BAD": NJ_BAD, "NJ_OK": NJ_OK, "F2_BAD": F2_BAD, "F2_OK": F2_OK, "U1": U1, "U2": U2, "G_AB": G_AB, "G_ALT": G_ALT, "G_AA2": G_AA2, "F_BAD": F_BAD, "F_OK": F_OK, "NF_BAD": NF_BAD, "NF_OK": NF_OK, "A": A, "B": B, "A2": A2, "C": C, "N_A": N_A, "N_X": N_X, "G": G, "G_Y": G_Y, "G_B": G_B, "N_B": N_B}
 
 CONF = {}  # set in main(): {"packer": "binary"|"json", "m": int, "kinds": [...]}
 
@@ -77,7 +78,7 @@ def kinds_for(packer, names):
 
 CORE = ["A", "B", "A2", "C", "N_A", "N_X", "G", "G_Y", "G_B", "N_B", "G_AB"]
 SPECIAL = ["A", "C", "G", "G_ALT", "G_AA2", "F_BAD", "F_OK", "NF_BAD", "NF_OK", "F2_BAD", "F2_OK", "U1", "U2"]
-ODD = ["A", "C", "E0", "N_E0", "G_E0", "G_GEN", "G_MAP", "A2"]
+ODD = ["A", "C", "G_NEST", "E0", "N_E0", "G_E0", "G_GEN", "G_MAP", "A2"]
 DERIVED = ["A", "G", "D_BASE", "D_EXT", "D_CLONE", "D_STR", "D_UNP", "D_MERGE", "AL1", "AL2"]
 JSPECIAL = ["A", "C", "J_BAD", "J_OK", "NJ_BAD", "NJ_OK", "F_OK", "U1", "U2", "N_X"]
 
